@@ -100,6 +100,7 @@ func checkC18(repo, tier string, verifSeed uint64) int {
 	if workers > 16 {
 		workers = 16
 	}
+	aloneCheck = true
 	results := runBatches(b, batches, workers, plan.batchTimeout, true)
 	// A worker that exits 5 found its simulation stuck: some task was descheduled inside code that another task
 	// then blocked on for real (blocking inside an uninstrumented dependency, a wait the instrumenter does not
@@ -183,6 +184,7 @@ func checkC18(repo, tier string, verifSeed uint64) int {
 	}
 
 	canaryViolation := checkCanary(b, results, verifSeed, root, known, logf)
+	aloneViolation := checkAlone(b, results, verifSeed, root, known, logf, ev)
 
 	exit := 0
 	printedKnown := map[string]bool{}
@@ -226,6 +228,11 @@ func checkC18(repo, tier string, verifSeed uint64) int {
 	if canaryViolation != "" {
 		ev.Violations++
 		fmt.Printf("VIOLATION property=C18 replay=%s\n", canaryViolation)
+		exit = 1
+	}
+	if aloneViolation != "" {
+		ev.Violations++
+		fmt.Printf("VIOLATION property=C18 replay=%s\n", aloneViolation)
 		exit = 1
 	}
 	if exit == 0 && len(infra) > 0 {
@@ -372,6 +379,36 @@ func replayCmd(repo, path string) int {
 		return 2
 	}
 	race := rf.Build == "race"
+	if rf.AloneBatch != nil {
+		b, err := buildAll(repo, true)
+		defer b.Cleanup()
+		if err != nil {
+			logf("BUILD FAILED: %v", err)
+			return 2
+		}
+		cb := rf.AloneBatch
+		bt := Batch{Seed: cb.Seed, Runs: cb.Runs, Race: cb.Race, Tier: cb.Tier, NoCold: cb.NoCold, ForceOp: cb.ForceOp}
+		f, a := aloneDigests(b, bt, rf.AloneRun, true)
+		if f == nil {
+			logf("INFRASTRUCTURE: the batch of the replay file did not complete")
+			return 2
+		}
+		if f.ResHash != a.ResHash {
+			where := "?"
+			for i := range f.OpHashes {
+				if i < len(a.OpHashes) && f.OpHashes[i] != a.OpHashes[i] {
+					where = f.OpNames[i]
+					break
+				}
+			}
+			fmt.Printf("violation oracle=O8: run %d of batch %d gives result digest %s after runs 0..%d and %s alone in a fresh process; first differing operation: %s\n",
+				rf.AloneRun, cb.Seed, f.ResHash, rf.AloneRun-1, a.ResHash, where)
+			fmt.Printf("VIOLATION property=C18 replay=%s\n", path)
+			return 1
+		}
+		fmt.Println("replay: no violation")
+		return 0
+	}
 	if len(rf.CanaryBatches) == 2 {
 		b, err := buildAll(repo, true)
 		defer b.Cleanup()
@@ -422,6 +459,95 @@ func replayCmd(repo, path string) int {
 	}
 	fmt.Println("replay: no violation")
 	return 0
+}
+
+// aloneDigests runs the batch prefix 0..k (in one process) and run k alone (in another) and returns the two done events of run k.
+func aloneDigests(b *Build, bt Batch, k int, opHashes bool) (*doneEv, *doneEv) {
+	full := bt
+	full.Runs = k + 1
+	fa, aa := batchArgs(full), append(batchArgs(bt), "-only", fmt.Sprint(k))
+	if opHashes {
+		fa, aa = append(fa, "-ophashes"), append(aa, "-ophashes")
+	}
+	f := runWorker(b, bt.Race, fa, filepath.Join(b.Scratch, "race-alone-f"), 20*time.Minute)
+	a := runWorker(b, bt.Race, aa, filepath.Join(b.Scratch, "race-alone-a"), 20*time.Minute)
+	if f.ExitCode != 0 || len(f.Done) != k+1 || a.ExitCode != 0 || len(a.Done) != 1 {
+		return nil, nil
+	}
+	return &f.Done[k], &a.Done[0]
+}
+
+// checkAlone is oracle O8: the last run of a batch, executed once more alone in a fresh worker process, must give
+// the results it gave after the other runs of the batch (the operations are pure: what a run returns is a function
+// of its specification, not of what the process did before).  Returns the path of a replay file, or "".
+func checkAlone(b *Build, results []*BatchResult, verifSeed uint64, root string, known KnownFindings, logf func(string, ...interface{}), ev *Evidence) string {
+	var dev *BatchResult
+	devN := 0
+	for _, r := range results {
+		if r == nil || !r.AloneChecked {
+			continue
+		}
+		ev.AloneChecked++
+		if r.AloneHash == "" || r.AloneHash == r.Done[len(r.Done)-1].ResHash {
+			continue
+		}
+		devN++
+		if dev == nil {
+			dev = r
+		}
+	}
+	if dev == nil {
+		return ""
+	}
+	bt := dev.Batch
+	k := bt.Runs - 1
+	// confirm with fresh processes, twice (a difference that does not repeat is reported as not reproducible)
+	f1, a1 := aloneDigests(b, bt, k, true)
+	f2, a2 := aloneDigests(b, bt, k, false)
+	if f1 == nil || f2 == nil {
+		logf("O8 skipped: could not repeat batch %d", bt.Seed)
+		return ""
+	}
+	if a1.ResHash != a2.ResHash {
+		logf("O8 not applicable: run %d of batch %d executed alone gives different results in two fresh processes (results vary per process for a reason other than call history)", k, bt.Seed)
+		return ""
+	}
+	where := "?"
+	for i := range f1.OpHashes {
+		if i < len(a1.OpHashes) && f1.OpHashes[i] != a1.OpHashes[i] {
+			where = f1.OpNames[i]
+			break
+		}
+	}
+	opk := strings.SplitN(where[strings.LastIndex(where, " ")+1:], "/", 2)
+	v := Violation{Oracle: "O8", Clause: "c: results do not depend on what was called before", World: "cross-process", Verdict: true,
+		Op: opk[0], Expected: fmt.Sprintf("run %d of batch %d executed alone in a fresh worker process: result digest %s", k, bt.Seed, a1.ResHash),
+		Actual: fmt.Sprintf("the same run executed after runs 0..%d of the batch: result digest %s", k-1, f1.ResHash),
+		Detail: "first operation whose result differs: " + where}
+	if len(opk) == 2 {
+		v.Kind = opk[1]
+	}
+	if kf := known.match(&v); kf != nil {
+		fmt.Printf("KNOWN-FINDING: property=C18 %s\n", kf.What)
+		return ""
+	}
+	logf("O8: %d batch(es) whose last run gives other results alone than after the rest of the batch; first difference in batch %d: %s", devN, bt.Seed, where)
+	flavour := "plain"
+	if bt.Race {
+		flavour = "race"
+	}
+	rf := &ReplayFile{Property: "C18", VerifSeed: verifSeed, Build: flavour, Violation: []Violation{v}, Minimised: false,
+		AloneBatch: &CanaryBatch{Seed: bt.Seed, Runs: bt.Runs, Race: bt.Race, Tier: bt.Tier, NoCold: bt.NoCold, ForceOp: bt.ForceOp}, AloneRun: k,
+		Reproducible: f1.ResHash != a1.ResHash && f2.ResHash != a2.ResHash,
+		Note:         "O8: execute runs 0..alone_run of the batch in one worker process and run alone_run alone in another; the result digests of that run must be equal"}
+	rdir := filepath.Join(root, "replays")
+	if replaysDir != "" {
+		rdir = replaysDir
+	}
+	path := filepath.Join(rdir, fmt.Sprintf("C18-alone-%d.json", bt.Seed))
+	_ = writeJSON(path, rf)
+	logf("O8 replay file written; reproducible=%v", rf.Reproducible)
+	return path
 }
 
 func canaryKey(m map[string]string) string {
